@@ -990,6 +990,79 @@ def judge_settings(got, where):
                      + "; ".join(EXAMPLE[k](bad[k]) for k in sorted(bad))}
 
 
+# ---- `pipe open`: the arguments the real constructor hands to pyserial, for caller-supplied settings -------------------
+OPEN_BYTESIZES = (5, 6, 7, 8)
+OPEN_PARITIES = ("N", "E", "O", "M", "S")
+OPEN_STOPBITS = (1, 2)          # the model's `stopBits` is a natural number; pyserial's 1.5 is judged by the oracle alone
+
+
+def open_call(bytesize=None, parity=None, stopbits=None, positional=False):
+    """the REAL `SerialDevice(port, baud[, bytesize][, parity][, stopbits])` over the recording stand-in for `serial.Serial`
+    (mechanism of `make_dev` / `pty cfg`); None = the caller leaves the argument out.  Returns what pyserial was asked for,
+    bound to pyserial's OWN signature (positional arguments resolved, pyserial's defaults for everything not passed)"""
+    import inspect
+    import serial
+    import nxslib.intf.serial as ns
+    real = ns.serial
+    ns.serial = types.SimpleNamespace(Serial=FakeSerial, SerialException=real.SerialException)
+    try:
+        if positional and None not in (bytesize, parity, stopbits):
+            dev = ns.SerialDevice("/dev/fake-port", 115200, bytesize, parity, stopbits)
+        else:
+            kw = {k: v for k, v in (("bytesize", bytesize), ("parity", parity), ("stopbits", stopbits)) if v is not None}
+            dev = ns.SerialDevice("/dev/fake-port", 115200, **kw)
+    finally:
+        ns.serial = real
+    port = dev._ser
+    assert isinstance(port, FakeSerial)
+    ba = inspect.signature(serial.Serial.__init__).bind(None, *port.args, **port.kw)
+    ba.apply_defaults()
+    eff = dict(ba.arguments)
+    eff.pop("self", None)
+    extra = eff.pop("kwargs", {}) or {}
+    return eff, extra
+
+
+def open_line_args(t):
+    """tokens of `pipe open <bytesize> <parity> <stopbits>` → caller arguments (None = left out)"""
+    return (None if t[2] == "-" else int(t[2])), (None if t[3] == "-" else t[3]), (None if t[4] == "-" else int(t[4]))
+
+
+def open_canon(eff):
+    def num(v):
+        return str(v) if type(v) is int else "?" + type(v).__name__
+    def flag(v):
+        return "0" if v is False else "1" if v is True else "?" + type(v).__name__
+    par = eff.get("parity")
+    return (f"ok bits={num(eff.get('bytesize'))} parity={par if isinstance(par, str) and par.isalnum() else '?'} "
+            f"stop={num(eff.get('stopbits'))} xonxoff={flag(eff.get('xonxoff'))} rtscts={flag(eff.get('rtscts'))} "
+            f"dsrdtr={flag(eff.get('dsrdtr'))}")
+
+
+def judge_open(bytesize, parity, stopbits):
+    """the property on one constructor call: flow control of every kind off, and the caller's character format handed to
+    pyserial unchanged (an argument the caller leaves out: the 8 / N / 1 of a transparent line, WANT_SETTINGS)"""
+    eff, extra = open_call(bytesize, parity, stopbits)
+    call = "SerialDevice('/dev/fake-port', 115200" + "".join(
+        f", {k}={v!r}" for k, v in (("bytesize", bytesize), ("parity", parity), ("stopbits", stopbits)) if v is not None) + ")"
+    if extra:
+        return {"key": "port-not-8n1-transparent", "what": "SerialDevice hands pyserial settings it does not know",
+                "expected": "-", "observed": repr(extra), "input": call}
+    want = {"bytesize": WANT_SETTINGS["bytesize"] if bytesize is None else bytesize,
+            "parity": WANT_SETTINGS["parity"] if parity is None else parity,
+            "stopbits": WANT_SETTINGS["stopbits"] if stopbits is None else stopbits,
+            "xonxoff": False, "rtscts": False, "dsrdtr": False}
+    bad = {k: eff.get(k) for k, v in want.items() if eff.get(k) != v or type(eff.get(k)) is not type(v)}
+    if not bad:
+        return None
+    flow = sorted(k for k in bad if k in ("xonxoff", "rtscts", "dsrdtr"))
+    return {"key": "port-not-8n1-transparent" if flow else "open-args-altered",
+            "what": f"{call} asks pyserial for " + ", ".join(f"{k}={v!r}" for k, v in sorted(bad.items()))
+                    + (": " + "; ".join(WHY[k] for k in flow) if flow else ": the caller's character format is not handed through unchanged"),
+            "expected": {k: repr(want[k]) for k in sorted(bad)}, "observed": {k: repr(v) for k, v in sorted(bad.items())},
+            "input": call}
+
+
 def pty_cfg(stats=None):
     """how the port is opened.  (1) arguments handed to pyserial (fake port, no tty needed); (2) on a pty: the pyserial
     object's settings and the termios state of the line after the real constructor ran"""
@@ -1811,6 +1884,14 @@ class C18(Prop):
                 ks.append(k)
                 left -= k
             yield f"pipe sess {','.join(map(str, ks))} {hexs(fr)}", "long-frame-session"
+        # how the port is opened for caller-supplied settings (`-` = the caller leaves the argument out);
+        # last, so that the random cases above are the ones of earlier rounds for a given seed
+        yield "pipe open - - -", "open-args"
+        full = [(b, p, sb) for b in OPEN_BYTESIZES for p in OPEN_PARITIES for sb in OPEN_STOPBITS]
+        part = [(b, p, sb) for b in OPEN_BYTESIZES + ("-",) for p in OPEN_PARITIES + ("-",) for sb in OPEN_STOPBITS + ("-",)
+                if "-" in (b, p, sb) and (b, p, sb) != ("-", "-", "-")]
+        for b, p, sb in full + (part if T else rng.sample(part, 6)):
+            yield f"pipe open {b} {p} {sb}", "open-args"
 
     # ---- real code -----------------------------------------------------------------------------------
     def impl(self, line):
@@ -1819,6 +1900,9 @@ class C18(Prop):
             items, port, dev, _ = run_history(int(t[2]), t[3].split(";"))
             return ("ok " + ",".join(items) + f" | pad={dev.write_padding} rxf={hexs(bytes(port.rx_flight))} "
                     f"rxw={hexs(bytes(port.rx_wait))} txf={hexs(bytes(port.tx_flight))} txw={hexs(bytes(port.tx_wait))}")
+        if t[1] == "open":
+            eff, extra = open_call(*open_line_args(t), positional=True)
+            return open_canon(eff) + (" extra=" + ",".join(sorted(extra)) if extra else "")
         if t[1] == "sess":
             ks = [] if t[2] == "-" else [int(x) for x in t[2].split(",")]
             frames, _ = run_sess(ks, unhex(t[3]))
@@ -1828,6 +1912,8 @@ class C18(Prop):
     def nontrivial(self, line, out):
         if line.startswith("pipe sess"):
             return out != "ok -"
+        if line.startswith("pipe open"):
+            return out.startswith("ok bits=")
         return re.search(r"[rdg]!?=[0-9a-f]", out) is not None
 
     # ---- the property on the real code -----------------------------------------------------------------
@@ -1840,6 +1926,13 @@ class C18(Prop):
                 if getattr(e, "errno", None) in (2, 6, 13, 19) or "pty" in str(e).lower():
                     return None     # no pseudo-terminal in this sandbox
                 raise
+        if t[1] == "open":
+            b, p, sb = open_line_args(t)
+            v = judge_open(b, p, sb)
+            if v is None and sb == 1:
+                import serial
+                v = judge_open(b, p, serial.STOPBITS_ONE_POINT_FIVE)     # pyserial's third spelling; not a model value
+            return v
         if t[1] == "sess":
             ks = [] if t[2] == "-" else [int(x) for x in t[2].split(",")]
             d = unhex(t[3])
